@@ -1,16 +1,16 @@
 package h
 
 import (
-	"time"
-	"sync"
-	"runtime"
 	"bytes"
 	"encoding/binary"
 	"errors"
 	"fmt"
 	"io"
 	"net/http"
+	"runtime"
+	"sync"
 	"sync/atomic"
+	"time"
 
 	connect "github.com/bufbuild/connect-go"
 )
@@ -67,8 +67,8 @@ func (c ToyCodec) Unmarshal(data []byte, m any) error {
 
 // Tag compression: one tag byte in front of the payload.
 type tagCompressor struct {
-	tag byte
-	w   io.Writer
+	tag   byte
+	w     io.Writer
 	wrote bool
 }
 
@@ -113,8 +113,8 @@ func (t *tagDecompressor) Read(p []byte) (int, error) {
 	}
 	return t.r.Read(p)
 }
-func (t *tagDecompressor) Close() error             { return nil }
-func (t *tagDecompressor) Reset(r io.Reader) error  { t.r, t.begun = r, false; return nil }
+func (t *tagDecompressor) Close() error            { return nil }
+func (t *tagDecompressor) Reset(r io.Reader) error { t.r, t.begun = r, false; return nil }
 
 // WithTag registers the tag algorithm `name` (tag byte = first letter upper-cased).
 func TagByte(name string) byte { return name[len(name)-1] }
@@ -176,7 +176,7 @@ func (t *Tracker) Snapshot() []string {
 type trackedDecompressor struct {
 	inner connect.Decompressor
 	tr    *Tracker
-	mu sync.Mutex
+	mu    sync.Mutex
 	// the pool's protocol (compression.go): Get, Reset(source) ... Close, Reset(empty), Put
 	state int // 0 fresh or parked in the pool, 1 acquired, 2 closed (about to be parked)
 }
